@@ -3,19 +3,29 @@ import TunnoxModel.Spec.C11
 /-!
 Line protocol for C11 (see harness/c11/main.go):
   case: c <cmdType> p <0|1> f <conn#> s <snd> r <rcv> t <tok|-> b <0|1> m <ref> g <int> k <ref> d <ref>
-        W conns <n> (<N|U|A><clientID>)* maps <n> (<listen>:<target>:<s|t>:<a|i>)* codes <n> (<target>:<0|1>)* doms <n> (<owner>)*
+        W [br <0|1>] conns <n> (<N|U|A><clientID>[@<node>])* maps <n> (<listen>:<target>:<s|t>:<a|i>)* codes <n> (<target>:<0|1>)* doms <n> (<owner>)*
   obs:  <run> ~ <run>,  run = ret <0|1> rsp <n|o|f> view <…|-> chg <…|-> dlv <…|-> gone <…|->
 The driver runs the `.repaired` variant of the model.
 -/
 namespace Tunnox.Drv.C11
 open Tunnox.C11
 
+def parseConnId (k : Char) (s : String) (node : Nat) : Option Conn :=
+  match k with
+  | 'N' => s.toNat?.map (fun c => ⟨.bare, c, node⟩)
+  | 'U' => s.toNat?.map (fun c => ⟨.unauth, c, node⟩)
+  | 'A' => s.toNat?.map (fun c => if c == 0 then ⟨.unauth, 0, node⟩ else ⟨.auth, c, node⟩)
+  | _ => none
+
+/-- `<N|U|A><clientID>[@<node>]` -/
 def parseConn (s : String) : Option Conn :=
   match s.toList with
-  | 'N' :: r => (String.ofList r).toNat?.map (fun c => ⟨.bare, c⟩)
-  | 'U' :: r => (String.ofList r).toNat?.map (fun c => ⟨.unauth, c⟩)
-  | 'A' :: r => (String.ofList r).toNat?.map (fun c => if c == 0 then ⟨.unauth, 0⟩ else ⟨.auth, c⟩)
-  | _ => none
+  | k :: r =>
+    match (String.ofList r).splitOn "@" with
+    | [c] => parseConnId k c 0
+    | [c, n] => n.toNat?.bind (parseConnId k c)
+    | _ => none
+  | [] => none
 
 def parseMap (s : String) : Option Mapping :=
   match s.splitOn ":" with
@@ -43,7 +53,9 @@ structure Case where
 
 def parseCase' : List String → Option Case
   | "c" :: ct :: "p" :: p :: "f" :: f :: "s" :: s :: "r" :: r :: "t" :: t :: "b" :: b :: "m" :: m :: "g" :: g ::
-    "k" :: k :: "d" :: d :: "W" :: rest => do
+    "k" :: k :: "d" :: d :: "W" :: rest0 => do
+    let bridge := (match rest0 with | "br" :: "1" :: _ => true | _ => false)
+    let rest := (match rest0 with | "br" :: _ :: r => r | r => r)
     let (conns, rest) ← section_ "conns" parseConn rest
     let (maps, rest) ← section_ "maps" parseMap rest
     let (codes, rest) ← section_ "codes" parseCode rest
@@ -51,7 +63,7 @@ def parseCase' : List String → Option Case
     if !rest.isEmpty then none
     let f ← f.toNat?
     if f ≥ conns.length then none
-    pure ⟨⟨conns, maps, codes, doms⟩, f,
+    pure ⟨⟨conns, maps, codes, doms, bridge⟩, f,
       ⟨← ct.toNat?, p == "1", s, r, t, b == "1", ← m.toInt?, ← g.toInt?, ← k.toInt?, ← d.toInt?, 0⟩⟩
   | _ => none
 
